@@ -2,7 +2,8 @@
 From Coq Require Import List Arith Bool ZArith QArith Qcanon Lia.
 From QV.Core Require Import OF QcOF.
 From QV.Model Require Import C13_Cache C13_Loss C13_LossNum C13_Heap.
-From QV.Proofs Require Import C13_Cache C13_Loss C13_Heap C13_HeapValue.
+From QV.Exec Require Import Base C13_ops.
+From QV.Proofs Require Import C13_Cache C13_Loss C13_Heap C13_HeapValue C13_ExecCache.
 Import ListNotations.
 
 (* ================= 1. CompositeSystem: lazily built, individually deletable tables ================= *)
@@ -56,6 +57,26 @@ Theorem C13_cache_needs_immutable_basis : forall (B T : Type) (build : B -> slot
   c_basis c = b' /\ get build c s <> Some (build (c_basis c) s).
 Proof. exact @cache_stale_if_basis_writable. Qed.
 Print Assumptions C13_cache_needs_immutable_basis.
+
+(* the EXECUTED operation (Exec/C13_ops.cache_trace, run by "c13.cache_run" next to the implementation and compared with the
+   nine private attributes after every step) is the model machine: its final state is [run] of the decoded operation list,
+   which contains no Poke; so every state it reaches from a fresh system satisfies the invariant and every getter answers
+   [build basis] - the theorem above is about exactly what the harness executes *)
+Theorem C13_exec_cache_trace_is_model : forall (zs : list Z) (c : @cache unit unit) out cf,
+  cache_trace c zs = Some (out, cf) ->
+  exists ops, map dec_cache_op zs = map Some ops /\ quara_ops ops /\ cf = run ubuild ops c /\ length out = (9 * length zs)%nat.
+Proof. exact cache_trace_is_run. Qed.
+Print Assumptions C13_exec_cache_trace_is_model.
+
+Theorem C13_exec_cache_trace_sound : forall (zs : list Z) out cf s,
+  cache_trace (init tt) zs = Some (out, cf) -> cache_inv ubuild tt cf /\ get ubuild cf s = Some (ubuild tt s).
+Proof. exact exec_cache_trace_sound. Qed.
+Print Assumptions C13_exec_cache_trace_sound.
+
+(* non-vacuity: a trace of getter (code = slot) and delete (16 + slot) operations is accepted by the executed operation *)
+Example C13_example_exec_trace :
+  match cache_trace (init tt) [3; 20; 6; 19; 4]%Z with Some (out, cf) => Some (length out, c_tick cf) | None => None end = Some (45%nat, 3%nat).
+Proof. vm_compute. reflexivity. Qed.
 
 (* ================= 2. loss-function objects re-configured per dataset ================= *)
 
